@@ -862,3 +862,39 @@ Fixpoint run_world (c : cfg) (w : world) (ops : list op) : world :=
   | [] => w
   | o :: t => run_world c (fst (step c w o)) t
   end.
+
+(* ---- "no set iteration": the enumeration orders of the DFXP region bookkeeping made explicit ------------------------------
+   RegionCreator keeps (a) the unique layouts of the document in an insertion-ORDERED container (_OrderedSet, a list) and
+   gives them the ids r0, r1, .. in iteration order; (b) the ids that were assigned in a hash SET (_assigned_region_ids)
+   that is only ever asked `id in set`.  Every iteration takes its order as a parameter:
+     iter : the order in which container (a) is iterated - the identity for the list the code uses, an arbitrary
+            permutation if it were a hash set (what `unique_regions = set()` would do);
+     enum : the order in which the hash set (b) would enumerate its elements.
+   The other containers the writer models walk are Python dicts (languages, styles) and lists (captions, nodes): insertion
+   ordered by the language definition, no parameter. *)
+Definition layout_eqb (a b : Z) : bool := (a / 256 =? b / 256).      (* Layout.__eq__: the value digest *)
+
+Definition ordered_add (x : Z) (l : list Z) : list Z := if existsb (layout_eqb x) l then l else l ++ [x].
+
+Definition unique_regions (codes : list (option Z)) : list Z :=
+  fold_left (fun acc c => match c with Some x => if flag fT x then ordered_add x acc else acc | None => acc end) codes [].
+
+Definition region_ids (iter : list Z -> list Z) (codes : list (option Z)) : list (Z * nat) :=
+  let u := iter (unique_regions codes) in combine u (seq 0 (length u)).
+
+Definition region_of (ids : list (Z * nat)) (c : Z) : option nat :=
+  match filter (fun p => layout_eqb c (fst p)) ids with p :: _ => Some (snd p) | [] => None end.
+
+(* cleanup_regions: a region stays in the document iff its id is in the assigned set *)
+Definition kept_regions (iter : list Z -> list Z) (enum : list nat -> list nat)
+           (codes : list (option Z)) (used : list nat) : list (Z * nat) :=
+  filter (fun p => existsb (Nat.eqb (snd p)) (enum used)) (region_ids iter codes).
+
+(* the <region> elements and the region attribute of every positioned element of a DFXP document *)
+Definition dfxp_regions (iter : list Z -> list Z) (enum : list nat -> list nat) (o : wopts) (t : tree)
+  : list (Z * nat) * list (option nat) :=
+  let codes := map snd (dfxp_codes (dfxp_langs o t)) in
+  let ids := region_ids iter codes in
+  let refs := map (fun c => match c with Some x => region_of ids x | None => None end) codes in
+  let used := flat_map (fun r => match r with Some i => [i] | None => [] end) refs in
+  (kept_regions iter enum codes used, refs).
